@@ -402,7 +402,7 @@ Section Run.
     unfold res, stream_run. cbv zeta.
     change (abs_start (j_first c) (j_start c) match hub_head (w_hub w) with Some (r, _) => rn r | None => 0 end)
       with (run_start c w).
-    rewrite Hstart, Hstop, Hfilter, Hmode. cbn [N.eqb negb andb].
+    rewrite (file_end_nostop c merged_end Hstop), Hstart, Hstop, Hfilter, Hmode. cbn [N.eqb negb andb].
     unfold live_try. rewrite Hmode. cbn [N.eqb].
     destruct (h_ready (w_hub w)) eqn:Hrd; cbn [negb].
     - destruct (blocks_from_num (h_f (w_hub w)) start) as [burst| | |] eqn:Hb.
